@@ -366,7 +366,14 @@ def _src_jump(kind, k):
     raise KeyError(kind)
 
 
+def _src_lnotab_inside(n):
+    # 3.8/3.9: folded default tuples with index > 255 in a multi-line def leave an
+    # lnotab entry inside an EXTENDED_ARG-prefixed instruction
+    return "".join("x%d = %d\n" % (i, 1000 + i) for i in range(n)) + "def f(a=(1, 2),\n      b=(3, 4)):\n    pass\n"
+
+
 FEAT = {
+    "lnotab_inside": _src_lnotab_inside,
     "names": _src_names,
     "consts": _src_consts,
     "locals": _src_locals,
